@@ -35,8 +35,13 @@ func c15StateWatcherParked() bool {
 		if strings.Contains(g.text, c15StateWatchFn) {
 			return g.state == "select" || g.state == "chan receive"
 		}
+		if strings.Contains(g.text, "(*cluster).watchConnState") {
+			return false // started, not yet in the watch loop
+		}
 	}
-	return false
+	// no goroutine is (or is going to be) watching the connection state: nothing will ever
+	// react to a state change - as settled as it gets
+	return true
 }
 
 // c15Stable: cond holds on 5 consecutive polls.
